@@ -120,6 +120,19 @@ def rerun_case(cid, times=2):
     return res
 
 
+def known_witness(run, key, payload, text):
+    """A known finding prints KNOWN-FINDING instead of VIOLATION; keep its latest witness replayable:
+    replays/C08-known-<key>.json  (./check C08 --replay <that file>)."""
+    if key not in [f["key"] for f in run.findings]:
+        return
+    d = os.path.join(C.VERIF, "replays")
+    os.makedirs(d, exist_ok=True)
+    path = os.path.join(d, "C08-known-%s.json" % re.sub(r"[^\w.-]+", "_", key))
+    with open(path, "w") as fh:
+        json.dump({"property": "C08", "key": key, "what": text, "no_failing_input_found": False, "known_finding": True,
+                   "seed": run.seed, "tier": run.tier, "replay": payload}, fh, indent=1)
+
+
 def classify(run, line_of, mism, stats):
     """Turn driver MISMATCH lines into violations (DESIGN.md section 5)."""
     for l in mism[:400]:
@@ -136,8 +149,11 @@ def classify(run, line_of, mism, stats):
             evs = case.split("\t")[3].split(" ") if case else []
             if reload_racing_return(evs):
                 key += ":reload-racing-return"
-            run.violation(key, payload, "%s Run() returned %s but the state read at its return was %s" % (rn, res, ST[int(stn)]))
+            text = "%s Run() returned %s but the state read at its return was %s" % (rn, res, ST[int(stn)])
+            known_witness(run, key, payload, text)
+            run.violation(key, payload, text)
         elif kind == "stream-stale":
+            known_witness(run, "stream:stale-replay", payload, "stale replay: " + detail[:300])
             run.violation("stream:stale-replay", payload,
                           "a subscriber received the current state and then the older changes again (got/hist in the payload)")
         elif kind in ("stream-unexplained", "closed-without-cancel", "not-closed"):
@@ -242,6 +258,8 @@ def run(run):
         for k, v in summ.items():
             stats[k] = stats.get(k, 0) + v
         if stats.get("storm_stale", 0) > 0:
+            known_witness(run, "stream:stale-replay", {"case_id": "storm", "case_line": lines.get("storm", ""),
+                                                       "how": "build/bin/fsm -mode storm | build/bin/fsm_model"}, "stale replay (storm leg)")
             run.violation("stream:stale-replay", {"case_id": "storm", "case_line": lines.get("storm", ""),
                                                   "how": "build/bin/fsm -mode storm | build/bin/fsm_model"},
                           "a subscriber received the current state and then the older changes again (storm leg)")
